@@ -511,20 +511,21 @@ main(int argc, char **argv) {
     exit(1);
   }
 
+  // The output filenames were made absolute when we read the options, so that
+  // they keep referring to the directory we were started in.  If that was not
+  // possible because the current directory cannot be determined, any change
+  // of directory from here on (into -srcdir, or while a header's name is made
+  // canonical) would quietly move the output somewhere else.
+  if ((!output_code_filename.empty() && output_code_filename.is_local()) ||
+      (!output_data_filename.empty() && output_data_filename.is_local()) ||
+      (!output_text_filename.empty() && output_text_filename.is_local())) {
+    cerr << "Could not determine the current directory, which the output "
+            "filenames are relative to.\n";
+    exit(1);
+  }
+
   // If requested, change directory to the source-file directory.
   if (source_file_directory != "") {
-    // The output filenames were made absolute when we read the options, so
-    // that they keep referring to the directory we were started in.  If that
-    // was not possible because the current directory cannot be determined,
-    // changing directory now would quietly move the output somewhere else.
-    if ((!output_code_filename.empty() && output_code_filename.is_local()) ||
-        (!output_data_filename.empty() && output_data_filename.is_local()) ||
-        (!output_text_filename.empty() && output_text_filename.is_local())) {
-      cerr << "Could not determine the current directory, which the output "
-              "filenames are relative to.\n";
-      exit(1);
-    }
-
     if (!source_file_directory.chdir()) {
       cerr << "Could not change directory to " << source_file_directory << "\n";
       exit(1);
